@@ -329,8 +329,8 @@ func writeProject(p pProject, dir string) (map[string]string, error) {
 		if regexp.MustCompile(`(^|[^A-Za-z_])time\.`).MatchString(body) {
 			imports = append(imports, `"time"`)
 		}
-		for _, other := range []string{"ctl", "other", "models"} {
-			if other != fb.pkg && strings.Contains(body, other+".") {
+		for _, other := range []string{"ctl", "other", "models", "v"} {
+			if other != fb.pkg && regexp.MustCompile(`(^|[^A-Za-z0-9_."])`+other+`\.[A-Z]`).MatchString(body) {
 				imports = append(imports, `"`+projModule+"/"+other+`"`)
 			}
 		}
